@@ -216,6 +216,56 @@ def rule_wrap_declared(P):
     return r
 
 
+def rule_lines(P):
+    r = Rule("C25-lines", "K3", "every header line read is counted in headers_size before it is used or skipped", floor=2)
+    for name in ("evhttp_parse_firstline_", "evhttp_parse_headers_"):
+        f = P.fn(name)
+        reads = [el for el in f.calls("evbuffer_readln")]
+        cnt = [el for el, lhs, op, rhs in f.stores() if fields_of(lhs)[-1:] == ["evhttp_request.headers_size"] and op in ("+=", "=")]
+        for rd in reads:
+            # the length variable handed to readln
+            lv = strip(rd.e[2][1])
+            lv = strip(lv[1]) if is_e(lv, "addr") else lv
+            good = [c for c in cnt if any(eq(strip(q), lv) for q in walk(c.e[3]))]
+            # uses of the line: any call taking `line` (or a pointer derived from it), or reading the next line, or returning success
+            def use(x):
+                if x is rd:
+                    return True       # next iteration: the previous line went uncounted
+                if x.e[0] == "call" and callee_name(x.e) in ("evhttp_parse_request_line", "evhttp_parse_response_line", "evhttp_add_header", "evhttp_append_to_last_header"):
+                    return True
+                return False
+            # start on the edge where a line was returned
+            def nulltest(c):
+                c = strip(c)
+                if not (is_e(c, "bin") and c[1] in ("==", "!=")):
+                    return False
+                for a, b_ in ((c[2], c[3]), (c[3], c[2])):
+                    a = strip(a)
+                    if is_e(a, "assign"):
+                        a = strip(a[2])
+                    if is_e(a, "var") and a[1] == "line" and (is_e(strip(b_), "null") or (is_e(strip(b_), "int") and strip(b_)[1] == 0)):
+                        return True
+                return False
+            nn = sorted([b for b in f.branch_blocks() if f.dominates(rd.bid, b.id) and nulltest(b.term["cond"])], key=lambda b: 0 if b.id == rd.bid else 1)
+            start = rd.pos()
+            w = None
+            if nn:
+                b = nn[0]
+                c = strip(b.term["cond"])
+                isnull_true = is_e(c, "bin") and c[1] == "=="
+                ne_true = is_e(c, "bin") and c[1] == "!="
+                lab = "F" if isnull_true else "T"
+                s_ = [x for x, l in b.succ if l == lab]
+                if s_:
+                    start = (s_[0], -1)
+            w = f.path_avoiding(start, use, lambda x: x in good)
+            r.inst((name, rd.n), {"fn": name, "read": rd.where(), "counted_at": [c.where() for c in good], "use_reachable_uncounted": w.where() if w is not None else None})
+            if w is not None or not good:
+                r.bad("K3:%s:line-not-counted" % name, (w or rd).where(), name,
+                      "a header line returned by evbuffer_readln can be %s without its length having been added to headers_size: such lines bypass max_headers_size" % ("used at line %d" % w.line if w is not None and w is not rd else "skipped (next line read)"))
+    return r
+
+
 def run(ctx, config):
     P = ctx.prog(UNITS, config)
-    return [rule_monotone(P), rule_counted(P), rule_checked(P), rule_wrap_declared(P)]
+    return [rule_monotone(P), rule_counted(P), rule_checked(P), rule_wrap_declared(P), rule_lines(P)]
